@@ -16,7 +16,7 @@ CHECKS = {
  "C10": ("real lsq_linear_adaptive / fit_adaptive on symbolic systems: returned intensities and scales satisfy the documented total / offset constraints and the bounds, no feasible "
          "pair is better for 'unity' / 'max' (contract instance at an arbitrary competitor pair), feasibility, all-in-gamut => scales (1,1) via a closed lemma, prediction identity, name guard", "4 C10"),
  "C16": ("the real transformer loop with exact algebraic square roots: unit pairwise distances for n=2..9 (12 thorough) and unreachable internal assertion; affine map; exact inverse "
-         "round trip (n<=4) incl. L1 and centring; scale invariance of the chromatic reduction; n-sphere conversion through the real code with an angle abstraction: radius, angle "
+         "round trip in both directions (n<=4) incl. L1 and centring, on the caller's own array; scale invariance of the chromatic reduction; n-sphere conversion through the real code with an angle abstraction: radius, angle "
          "ranges and round trip for every point incl. zero patterns (dimension 2-3, 4 thorough)", "4 C16"),
  "C20": ("real irr2flux / flux2irr with the real pint registry on symbolic magnitudes: equals I*lambda/(h c N_A) with the exact SI constants to rel 1e-12, exact inverse, linear, "
          "axis= variant == broadcast form, same numbers for plain arrays and quantities in several units, requested prefix/unit returned", "4 C20"),
@@ -25,34 +25,35 @@ CHECKS = {
          "both sides, relative=False; NNLS fallback (fewer sources than receptors) through the cvxpy shim", "4 C03"),
  "C06": ("real _range_of_solutions / range_of_solutions / _spaced_solutions with a CONCRETE catalogue of capture matrices and symbolic target, bounds and baseline: every path of the "
          "candidate enumeration explored; z3 decides soundness for every reproducing intensity vector, attainment of each end (quantified linear arithmetic), spaced solutions in "
-         "bounds and reproducing, out-of-gamut behaviour; perturbed-comparison layer for rounding sensitivity (known finding F10)", "4 C06"),
+         "bounds and reproducing, out-of-gamut behaviour; perturbed-comparison layer for rounding sensitivity (known finding F10); integer-typed bounds decided by the run of the real "
+         "code on sampled inputs (truncation is invisible to real arithmetic)", "4 C06"),
  "C14": ("histories of registration calls and queries (all single steps, pairs over the mutator alphabet, queries sandwiched with mutators; every argument a fresh symbol) applied to a "
          "real estimator; z3 proves term-wise equality of all observables (captures, clouds/targets handed to the membership oracle, bound test, the least-squares problem handed "
          "to the solver, prediction) with a fresh estimator built from the registered values of a stateless reference model; caller arrays compared element-wise before/after every call", "4 C14"),
  "C15": ("twin runs related by symbolic unit changes s, c > 0: the cloud and targets handed to the membership oracle scale by exactly c (verdicts equal by the contract with the same "
          "weights), s*(fit in new units) is an optimum of the original problem and predictions scale by c; range / spaced-solution twins on the concrete catalogue for an (s,c) grid "
-         "spanning 1e-4..1e4: ends and spaced solutions scale by exactly 1/s on every path", "4 C15"),
+         "spanning 1e-4..1e4: ends and spaced solutions scale by exactly 1/s on every path (integer-typed bounds: run of the real code on sampled inputs)", "4 C15"),
  "C19": ("real equalize_domains / estimator.capture(domain=) on symbolic monotone domains and arrays with an interp1d contract stub: common grid = [max of minima, min of maxima], "
          "uniform, point count = round(overlap / coarsest mean step)+1, each array interpolated from its own domain along its own axis (compared with the harness's own "
          "interpolation), identical domains untouched, rejection only without sufficient overlap, stack/concatenate, capture on the common grid", "4 C19"),
  "C17": ("real proj_B_to_hull with a quadprog contract stub (result in hull, nearest by an explicit competitor instance, interior points fixed), alpha_for_B_with_P / B_with_P on symbolic "
          "facets (positive multiple on the boundary, all facet inequalities, nan only when no facet is hit), line_to_simplex, all-pairs slice on symbolic clouds (on the plane, on a "
-         "segment of the cloud); hull-edge branch and exactness of the slice by z3 linear arithmetic on sampled concrete clouds in 2-5 dimensions with the real qhull", "4 C17"),
+         "segment of the cloud; integer-typed clouds by the run of the real code); hull-edge branch and exactness of the slice by z3 linear arithmetic on sampled concrete clouds in 2-5 dimensions with the real qhull", "4 C17"),
  "C12": ("PARTIAL: intensity (L1) scaling decided on fully symbolic systems (one positive factor amax/bmax on the light-induced part, largest capture = smallest single-source maximum, "
          "ratios unchanged, relative and absolute capture, caller array untouched); chromatic (distance) scaling decided for DICHROMATS (concrete system, symbolic targets, every path: "
          "totals kept, one common contraction about the neutral point, all chromaticities inside the gamut, unchanged when already inside, zero rows stay zero); the tri-/tetrachromat "
          "branch of the distance scaling is NOT decided (only its caller-array clause, in C14)", "4 C12"),
  "C13": ("real sample_in_hull (pseudo-random and QMC branches) and estimator.sample_in_hull with recording stubs for the generator, Dirichlet and QMC engines, on symbolic clouds: "
          "exactly n samples, each a convex combination of the vertices of its simplex (hence in the hull / reproducible in bounds), simplex probability = volume / total volume "
-         "(compared with the harness's own determinant formula), Dirichlet(1..1) of d+1 components, all randomness from the one seeded generator, l1 total; uniformity is reduced "
-         "to two stated lemmas, not decided", "4 C13"),
+         "(compared with the harness's own determinant formula, hull vertices in case-chosen orders), Dirichlet(1..1) of d+1 components, all randomness from the one seeded generator, "
+         "l1 total and capture kind of the chromatic cloud; uniformity is reduced to two stated lemmas (on the real code a chi-square comparison with a reference triangulation serves as replay oracle)", "4 C13"),
  "C18": ("PARTIAL: the algebraic clauses only -- mean width (arbitrary symbolic directions from a stubbed generator): translation invariance, degree-one homogeneity (scale grid), "
          "monotone under adding a point, non-negative, 1-D = max-min; gamut metric: scale invariance and 1 relative to itself (size functional uninterpreted); Jensen-Shannon: symmetry, "
          "invariance to rescaling, similarity = 1 - divergence, negative input rejected (entropy uninterpreted); estimator.compute_hull hands the right cloud and reference. "
          "Monte-Carlo accuracy, rotation invariance, volume/PCA, superset/(0,1] and the log-based Jensen-Shannon bounds are NOT decided", "4 C18"),
  "C11": ("real lsq_linear_decomposition / fit_decomposition through the cvxpy shim with NMF and generator stubs, loop unrolled to 1 and 2 alternations plus the final refit (and the "
          "full opacity refit after subsampling): intensities within bounds / zero where masked / equal layer totals, opacities within bounds, fitted capture = P X A^T + baseline, the "
-         "factor fitted last is globally optimal given the other (instance at an arbitrary competitor), the error never increases from one solve to the next (instances at the "
+         "factor fitted last is globally optimal given the other (instance at an arbitrary competitor), every sub-problem minimises the weighted fitting error and the error never increases from one solve to the next (instances at the "
          "previous iterate), seed wiring", "4 C11"),
  "C05": ("exhaustive grid of (n_samples, batch_size) incl. non-dividing, larger-than-n and 'full' for the gaussian, poisson and excitation models: the real batching code "
          "(padding, block-diagonal stacking, scatter) runs on symbolic contents through the cvxpy shim; z3 decides per row: no exception, the result row is its own block of the "
